@@ -1,11 +1,35 @@
 (* C12 - str(query) is a faithful canonical form: it reparses to the same query.
 
-   Full statement (NOT proved; round trip, idempotence and grammar membership of the text are decided on every
-   generated query against the real code, and the text is compared with Model/Serialize.v):
+   C12_filter_free_roundtrip below proves the property for every query without filter selectors.
+   NOT proved for queries with filters (round trip, idempotence and grammar membership of the text are decided on
+   every generated query against the real code, and the text is compared with Model/Serialize.v):
      C12_roundtrip  : forall cfg q, compiled cfg q -> lits_exact q ->
                       exists q', m_compile cfg (m_str q) = Ok q' /\ same_modulo_default_step q' q
      C12_idempotent : m_str q' = m_str q *)
-From JP Require Import Base.Json Model.Ast Model.Serialize Spec.NormPath Proofs.SerializeProofs.
+From JP Require Import Base.Json Model.Ast Model.Serialize Model.Api Spec.NormPath Spec.Sem Proofs.SerializeProofs Proofs.Reparse.
+
+(* Every query built from name, index, slice and wildcard selectors (any number per segment, at least one) in child and
+   descendant segments - names over all Unicode scalar values, integers the environment admits: the text str() prints
+   compiles; the compiled query is the original one with every omitted slice step made explicit (1); printing it gives
+   the identical text; and it selects exactly the same nodes on every value.  End to end through Model/Serialize.v,
+   Model/Lex.v (within its fuel) and Model/Parse.v (within its fuel): Proofs/Reparse.v. *)
+Theorem C12_filter_free_roundtrip : forall cfg q, Forall seg_ok q -> Forall (seg_range cfg) q ->
+  let q' := map canon_seg q in
+  m_compile cfg (m_str q) = Ok q' /\ m_str q' = m_str q /\ m_compile cfg (m_str q') = Ok q' /\
+  (forall rg rxf v, sem rg rxf q' v = sem rg rxf q v).
+Proof.
+  intros cfg q Hok Hrg. cbv zeta. repeat split.
+  - apply compile_str; assumption.
+  - apply str_canon.
+  - rewrite str_canon. apply compile_str; assumption.
+  - intros. apply sem_canon.
+Qed.
+Print Assumptions C12_filter_free_roundtrip.
+
+Example C12_filter_free_example :   (* $..['a', -1, 1::2, *]['\u0000'] *)
+  let q := [Desc [SName [97%N]; SIndex (-1); SSlice (Some 1) None (Some 2); SWild]; Child [SName [0%N]]] in
+  Forall seg_ok q /\ m_str q = [36;46;46;91;39;97;39;44;32;45;49;44;32;49;58;58;50;44;32;42;93;91;39;92;117;48;48;48;48;39;93]%N.
+Proof. split; [repeat constructor; discriminate | vm_compute; reflexivity]. Qed.
 
 (* names and string literals appear in the RFC's canonical single-quoted form, with only the mandated escapes *)
 Theorem C12_quotes_canonical : forall s,
